@@ -217,12 +217,28 @@ func (i *Index) AddDesc(d Descriptor, opts ...IndexOpt) {
 	// Move entries from WithChildren option to childManifest list.
 	// These are from child descriptors when an index is later pushed.
 	for _, cd := range conf.children {
+		known := false
 		for mi := range i.Manifests {
-			if i.Manifests[mi].Digest == cd.Digest && len(i.Manifests[mi].Annotations) == 0 {
-				i.Manifests[mi] = i.Manifests[len(i.Manifests)-1]
-				i.Manifests = i.Manifests[:len(i.Manifests)-1]
+			if i.Manifests[mi].Digest == cd.Digest {
+				known = true
+				if len(i.Manifests[mi].Annotations) == 0 {
+					i.Manifests[mi] = i.Manifests[len(i.Manifests)-1]
+					i.Manifests = i.Manifests[:len(i.Manifests)-1]
+					i.childManifests = append(i.childManifests, cd)
+					break
+				}
+			}
+		}
+		// a child that is in neither list is tracked as a child, the same as when the index is loaded from storage
+		if !known {
+			for ci := range i.childManifests {
+				if i.childManifests[ci].Digest == cd.Digest {
+					known = true
+					break
+				}
+			}
+			if !known {
 				i.childManifests = append(i.childManifests, cd)
-				break
 			}
 		}
 	}
